@@ -9,6 +9,7 @@ import (
 	"sort"
 	"strings"
 	"sync"
+	"sync/atomic"
 	"time"
 )
 
@@ -92,3 +93,36 @@ func M8Good() string {
 	b.WriteString("x")
 	return b.String()
 }
+
+var memo sync.Map
+
+type memoKey struct {
+	a, b string
+}
+
+// M9BadKey keys a process-wide table by an image of its inputs: ("ab","c") and ("a","bc") collide.
+func M9BadKey(a, b string) int {
+	k := a + b
+	if v, ok := memo.Load(k); ok {
+		return v.(int)
+	}
+	n := len(a)*1000 + len(b)
+	memo.Store(k, n)
+	return n
+}
+
+// M9GoodKey keys the table by the inputs themselves.
+func M9GoodKey(a, b string) int {
+	k := memoKey{a, b}
+	if v, ok := memo.Load(k); ok {
+		return v.(int)
+	}
+	n := len(a)*1000 + len(b)
+	memo.Store(k, n)
+	return n
+}
+
+var hits atomic.Int64
+
+// M9Counter counts calls in a package-level counter.
+func M9Counter() int64 { return hits.Add(1) }
